@@ -11,11 +11,13 @@ struct Sub {                    // one submitted message (an ll op)
 	uint32_t node;
 	int size;                   // worst-case response size (reference table)
 	long wire_idx = -1;         // index into bus.wire once transmitted
+	bool def_deferred = false;  // even the lenient-low accounting had no room when the call began: the library must have held it back
+	int64_t admit_low_s = -1;   // earliest second at which the library can have admitted it (lenient-low accounting had room again)
 	bool due = false;           // liveness: model says it must have been handed to the transmit buffer
 	std::string due_why;
 };
 
-struct Out { size_t sub; int size; uint8_t type; int64_t t_inv_s, t_wire_s; };
+struct Out { size_t sub; int size; uint8_t type; int64_t t_inv_s, t_wire_s; uint64_t wire_step = 0; };
 
 struct StallWin { uint32_t node; size_t depth; uint64_t t1_processed = 0, t1_first = 0, t0_first = 0, t0_processed = 0; bool cleared = false; };
 
@@ -150,7 +152,7 @@ struct Flow : Prop {
 	std::map<uint32_t, std::vector<Out>> safe_q, live_q;      // outstanding per node: lenient-low / lenient-high
 	std::vector<StallWin> wins;
 	std::map<uint32_t, std::vector<size_t>> wire_per_node;     // sub indices in wire order
-	uint64_t n_deferred = 0, n_expired = 0, n_alt = 0, n_released_after_stall = 0, n_due_checked = 0, max_budget = 0, n_hol = 0;
+	uint64_t n_def_deferred = 0, n_deferred = 0, n_expired = 0, n_alt = 0, n_released_after_stall = 0, n_due_checked = 0, max_budget = 0, n_hol = 0;
 	bool healed = false;
 	Engine *E = nullptr;
 	struct Trigger { std::vector<size_t> held; std::string why; };
@@ -164,6 +166,9 @@ struct Flow : Prop {
 			const OpStart &s = e.starts[starts_seen];
 			Sub b; b.start_idx = starts_seen; b.exp = pc::ll_expected(*s.op); b.key = pc::msg_key(b.exp); b.node = b.exp.addr_key();
 			b.size = pc::resp_info(b.exp.type).size;
+			// requests that were on the wire before this call began and are still outstanding in the lenient-low accounting are outstanding in
+			// the library's accounting too: if they leave no room, the library held this message back and stamps it only when it admits it
+			if (b.size > 0) { int before = 0; for (auto &o : safe_q[b.node]) if (o.wire_step < s.inv_step) before += o.size; if (before + b.size > 48) b.def_deferred = true; }
 			by_key[b.key].push_back(subs.size());
 			subs.push_back(b);
 		}
@@ -180,11 +185,19 @@ struct Flow : Prop {
 	}
 
 	int sum(const std::vector<Out> &q) { int s = 0; for (auto &o : q) s += o.size; return s; }
+	// after the lenient-low accounting of a node shrank: messages the library must have held back may be admitted from now on
+	void recheck_deferred(Engine &e, uint32_t node, int64_t now_s) {
+		for (auto &b : subs) {
+			if (!b.def_deferred || b.node != node || b.wire_idx >= 0 || b.admit_low_s >= 0) continue;
+			int before = 0; for (auto &o : safe_q[node]) if (o.wire_step < e.starts[b.start_idx].inv_step) before += o.size;
+			if (before + b.size <= 48) b.admit_low_s = now_s;
+		}
+	}
 
 	void attach(Engine &e) override {
 		E = &e;
 		subs.clear(); starts_seen = 0; by_key.clear(); safe_q.clear(); live_q.clear(); wins.clear(); wire_per_node.clear();
-		n_deferred = n_expired = n_alt = n_released_after_stall = n_due_checked = max_budget = n_hol = 0; healed = false; triggers.clear(); credits.clear(); live_changed.clear();
+		n_def_deferred = n_deferred = n_expired = n_alt = n_released_after_stall = n_due_checked = max_budget = n_hol = 0; healed = false; triggers.clear(); credits.clear(); live_changed.clear();
 
 		e.bus.on_wire = [this, &e](const bus::WireRec &w) {
 			ingest_starts(e);
@@ -211,7 +224,7 @@ struct Flow : Prop {
 			}
 			// ---- C03 safety: outstanding budget at emission (lenient-low model)
 			auto &sq = safe_q[s.node];
-			for (size_t i = 0; i < sq.size();) { if (now_s - sq[i].t_inv_s >= 2) sq.erase(sq.begin() + (long) i); else i++; }
+			{ size_t n0 = sq.size(); for (size_t i = 0; i < sq.size();) { if (now_s - sq[i].t_inv_s >= 2) sq.erase(sq.begin() + (long) i); else i++; } if (sq.size() != n0) recheck_deferred(e, s.node, now_s); }
 			if (s.size > 0) {
 				int tot = sum(sq) + s.size;
 				if ((uint64_t) tot > max_budget) max_budget = (uint64_t) tot;
@@ -233,8 +246,12 @@ struct Flow : Prop {
 					if (!may_match) for (auto &fr : e.bus.done) if (fr.id == cr[i].frame && (!fr.processed || fr.processed_step > st.inv_step)) may_match = true;
 					if (may_match && std::find(acc.begin(), acc.end(), cr[i].first) != acc.end()) { cr.erase(cr.begin() + (long) i); pre_answered = true; break; }
 				}
-				if (!pre_answered) sq.push_back(Out{si, s.size, s.exp.type, st.inv_time_s, now_s});
-				live_q[s.node].push_back(Out{si, s.size, s.exp.type, st.inv_time_s, now_s});
+				// the 2 s of a request run from the moment the library admits it: not before the call began, and for a message the library
+				// must have held back not before the lenient-low accounting had room for it
+				int64_t stamp_low = st.inv_time_s;
+				if (s.def_deferred) { stamp_low = s.admit_low_s >= 0 ? s.admit_low_s : now_s; n_def_deferred++; }
+				if (!pre_answered) sq.push_back(Out{si, s.size, s.exp.type, stamp_low, now_s, w.step});
+				live_q[s.node].push_back(Out{si, s.size, s.exp.type, st.inv_time_s, now_s, w.step});
 				if (getenv("VERIF_DEBUG")) fprintf(stderr, "[model t=%llu] wire %s size %d -> live sum=%d\n", (unsigned long long) sim::now_us(), k.c_str(), s.size, sum(live_q[s.node]));
 			}
 		};
@@ -260,9 +277,16 @@ struct Flow : Prop {
 					};
 					if (match_head()) changed = true;
 					else {
+						// expired requests leave; if one of them accepted this very message type the library (which matches the oldest
+						// request first, expired or not) may have spent the message on it: the upper bound keeps the fresh request then
 						size_t before = lq.size();
-						while (!lq.empty() && now_s - lq[0].t_wire_s >= 2) { lq.erase(lq.begin()); n_expired++; }
-						if (lq.size() != before) { changed = true; match_head(); }
+						bool spent_on_expired = false;
+						while (!lq.empty() && now_s - lq[0].t_wire_s >= 2) {
+							const auto &acc = pc::resp_info(lq[0].type).answers;
+							if (std::find(acc.begin(), acc.end(), m.type) != acc.end()) spent_on_expired = true;
+							lq.erase(lq.begin()); n_expired++;
+						}
+						if (lq.size() != before) { changed = true; if (!spent_on_expired) match_head(); }
 						else if (!lq.empty()) n_hol++;
 					}
 					live_changed[f.id][mi] = changed;
@@ -273,6 +297,7 @@ struct Flow : Prop {
 					const auto &acc = pc::resp_info(sq[i].type).answers;
 					if (std::find(acc.begin(), acc.end(), m.type) != acc.end()) { sq.erase(sq.begin() + (long) i); used = true; break; }
 				}
+				if (used) recheck_deferred(e, nk, now_s);
 				if (!used) credits[nk].push_back({m.type, f.last_read_step, f.id});
 				if (m.type == MSG_STALL && !m.data.empty()) {
 					if (m.data[0]) { StallWin w; w.node = nk; w.depth = depth_of(nk); w.t1_first = f.first_read_step; wins.push_back(w); f.tag |= 0x1000; }
@@ -394,7 +419,7 @@ struct Flow : Prop {
 		p.set("due_messages_checked", (long long) n_due_checked); p.set("stall_windows", (long long) wins.size()); p.set("held_by_ancestor_stall_then_released", (long long) held_by_ancestor);
 		p.set("max_model_budget_ge_40", max_budget >= 40 ? 1 : 0); p.set("submitted", (long long) subs.size());
 		uint64_t root_stalls = 0; for (auto &w : wins) if (w.depth == 0) root_stalls++;
-		p.set("stall_from_interface", (long long) root_stalls);
+		p.set("stall_from_interface", (long long) root_stalls); p.set("requests_known_to_have_been_held_back", (long long) n_def_deferred);
 		f.set("probes", p);
 	}
 };
